@@ -153,6 +153,30 @@ class Translator:
                 len(e.left.args) == 1 and isinstance(e.comparators[0], ast.Name) and e.comparators[0].id == 'dict':
             t = '(typeIsDictM %s)' % self.expr(e.left.args[0], env, cname)
             return t if isinstance(e.ops[0], ast.Eq) else '(pyNot %s)' % t
+        if getattr(self, 'effect_mode', None) == 'store' and '__w' in env:
+            def is_policies(n):
+                return isinstance(n, ast.Attribute) and n.attr == 'policies' and isinstance(n.value, ast.Name) and n.value.id == 'self'
+            if isinstance(e, ast.Compare) and len(e.ops) == 1 and isinstance(e.ops[0], (ast.In, ast.NotIn)) and \
+                    is_policies(e.comparators[0]):
+                t = '(dictInM %s %s)' % (self.expr(e.left, env, cname), env['__w'])
+                return t if isinstance(e.ops[0], ast.In) else '(pyNot %s)' % t
+            if isinstance(e, ast.Call) and isinstance(e.func, ast.Attribute) and is_policies(e.func.value) and not e.keywords:
+                if e.func.attr == 'get' and len(e.args) == 1:
+                    return '(dictGetM %s %s)' % (self.expr(e.args[0], env, cname), env['__w'])
+                if e.func.attr == 'values' and not e.args:
+                    return '(dictValuesM %s)' % env['__w']
+            if isinstance(e, ast.Subscript) and isinstance(e.slice, ast.Slice) and e.slice.step is None and \
+                    e.slice.lower is not None and e.slice.upper is not None:
+                return '(sliceM %s %s %s)' % (self.expr(e.value, env, cname), self.expr(e.slice.lower, env, cname),
+                                             self.expr(e.slice.upper, env, cname))
+        if getattr(self, 'effect_mode', None) == 'audit':
+            if isinstance(e, ast.Call) and isinstance(e.func, ast.Attribute) and e.func.attr == 'apm' and \
+                    isinstance(e.func.value, ast.Name) and e.func.value.id == 'self' and len(e.args) == 1 and not e.keywords:
+                # the message object built from a list of policies: what it names is that list (how it renders is C17's
+                # last clause, modelled in Model/Audit.lean)
+                return self.expr(e.args[0], env, cname)
+            if isinstance(e, ast.List) and e.elts:
+                return '(seqOfM [%s])' % ', '.join(self.expr(x, env, cname) for x in e.elts)
         if isinstance(e, ast.List) and not e.elts:
             return 'cEmptyList'
         if isinstance(e, ast.Subscript) and isinstance(e.slice, ast.Slice):
@@ -371,6 +395,70 @@ class Translator:
         return any(walk(st) for st in stmts)
 
     @staticmethod
+    def _audit_kind(s):
+        """'audit' for audit_log.info(msg, extra={...}); ('decision', True/False) for the decision log record of
+        Guard.is_allowed; None for any other log call"""
+        c = s.value
+        if not (isinstance(c.func, ast.Attribute) and c.func.attr == 'info' and isinstance(c.func.value, ast.Name)):
+            return None
+        if c.func.value.id == 'audit_log' and any(k.arg == 'extra' and isinstance(k.value, ast.Dict) for k in c.keywords):
+            return 'audit'
+        if c.func.value.id == 'log' and c.args and isinstance(c.args[0], ast.Constant) and isinstance(c.args[0].value, str):
+            if 'Inquiry was allowed' in c.args[0].value:
+                return ('decision', True)
+            if 'Inquiry was rejected' in c.args[0].value:
+                return ('decision', False)
+        return None
+
+    def _audit_stmt(self, s, rest, env, cname, end, brk):
+        kind = self._audit_kind(s) if is_log_call(s) else None
+        if kind == 'audit':
+            # the record is emitted as the last thing before a constant is returned (nothing that could raise comes after
+            # an emission, so an exception handler may go on from the world as it stood when the `try` was entered)
+            if not (rest and isinstance(rest[0], ast.Return) and isinstance(rest[0].value, ast.Constant)):
+                raise Untranslatable('an audit record that is not followed by the return of a constant')
+            extra = [k.value for k in s.value.keywords if k.arg == 'extra'][0]
+            d = {k.value: v for k, v in zip(extra.keys, extra.values) if isinstance(k, ast.Constant)}
+            eff = d.get('effect')
+            if not (isinstance(eff, ast.Name) and eff.id in ('ALLOW_ACCESS', 'DENY_ACCESS')) or \
+                    'candidates' not in d or 'deciders' not in d:
+                raise Untranslatable('audit record fields')
+            return '(auditRetM %s %s %s %s %s)' % ('true' if eff.id == 'ALLOW_ACCESS' else 'false',
+                                                  self.expr(d['candidates'], env, cname), self.expr(d['deciders'], env, cname),
+                                                  self.expr(rest[0].value, env, cname), env['__w'])
+        if isinstance(kind, tuple):
+            self.fresh += 1
+            w = 'w%d' % self.fresh
+            env2 = dict(env)
+            env2['__w'] = '(pure %s)' % w
+            return '(decisionLogM %s %s fun %s =>\n      %s)' % ('cTrue' if kind[1] else 'cFalse', env['__w'], w,
+                                                                 self.block(rest, env2, cname, end, brk))
+        if isinstance(s, ast.Assign) and len(s.targets) == 1 and isinstance(s.targets[0], ast.Name) and \
+                isinstance(s.value, ast.Call) and isinstance(s.value.func, ast.Attribute) and \
+                isinstance(s.value.func.value, ast.Name) and s.value.func.value.id == 'self' and \
+                s.value.func.attr in getattr(self, 'audit_emitted', {}) and not s.value.keywords:
+            # a call of a method that acts on the world too (translated next to this one)
+            attrs = self.audit_emitted[s.value.func.attr]
+            for a in attrs:
+                self.attrs.add(a)
+            self.fresh += 1
+            n = self.fresh
+            names = ['a%d_%d' % (n, i) for i in range(len(s.value.args))]
+            inner = '(%s_%sA %s a%d_w)' % (s.value.func.attr.lstrip('_'), cname,
+                                          ' '.join(['self_%s' % a for a in attrs] + names), n)
+            inner = '(bindM %s fun a%d_w => %s)' % (env['__w'], n, inner)
+            for nm, a in reversed(list(zip(names, s.value.args))):
+                inner = '(bindM %s fun %s => %s)' % (self.expr(a, env, cname), nm, inner)
+            r, w = 'r%d' % n, 'w%d' % n
+            env2 = dict(env)
+            env2['__w'] = '(pure %s)' % w
+            env2[s.targets[0].id] = '(pure %s)' % r
+            return '(callProcM %s fun %s %s =>\n      %s)' % (inner, r, w, self.block(rest, env2, cname, end, brk))
+        if isinstance(s, ast.Return):
+            return '(pairM %s %s)' % (self.expr(s.value, env, cname) if s.value is not None else 'cNone', env['__w'])
+        return None
+
+    @staticmethod
     def _is_store_call(n):
         """self.storage.<meth>(...) / self.cache.<meth>(...)"""
         return isinstance(n, ast.Call) and isinstance(n.func, ast.Attribute) and isinstance(n.func.value, ast.Attribute) and \
@@ -424,7 +512,9 @@ class Translator:
         next iteration) - a Lean term, or a function of the environment at that point when the loop carries variables;
         `brk`: the same for `break`"""
         endf = end if callable(end) else (lambda e, _t=end: _t)
-        stmts = [s for s in stmts if not is_log_call(s) and not (isinstance(s, ast.Expr) and isinstance(s.value, ast.Constant))]
+        audit = getattr(self, 'effect_mode', None) == 'audit'
+        stmts = [s for s in stmts if not (is_log_call(s) and not (audit and self._audit_kind(s))) and
+                 not (isinstance(s, ast.Expr) and isinstance(s.value, ast.Constant))]
         if not stmts:
             return endf(env)
         s, rest = stmts[0], stmts[1:]
@@ -432,6 +522,10 @@ class Translator:
             hoisted = self._hoist_store_call(s, rest, env, cname, end, brk)
             if hoisted is not None:
                 return hoisted
+        if audit:
+            t = self._audit_stmt(s, rest, env, cname, end, brk)
+            if t is not None:
+                return t
         if isinstance(s, ast.Continue):
             if end == 'cNone':
                 raise Untranslatable('continue outside a loop')
@@ -517,6 +611,43 @@ class Translator:
                 return '(catchAllM %s\n      %s)' % (self.block(body, env, cname, end, brk),
                                                      self.block(h.body, env, cname, end, brk))
             raise Untranslatable('try / except ' + h.type.id)
+        if getattr(self, 'effect_mode', None) == 'store':
+            def is_policies(n):
+                return isinstance(n, ast.Attribute) and n.attr == 'policies' and isinstance(n.value, ast.Name) and n.value.id == 'self'
+
+            def fresh_world():
+                self.fresh += 1
+                w = 'w%d' % self.fresh
+                env2 = dict(env)
+                env2['__w'] = '(pure %s)' % w
+                return w, env2
+            if isinstance(s, ast.With) and len(s.items) == 1 and s.items[0].optional_vars is None and \
+                    isinstance(s.items[0].context_expr, ast.Attribute) and s.items[0].context_expr.attr == 'lock' and \
+                    isinstance(s.items[0].context_expr.value, ast.Name) and s.items[0].context_expr.value.id == 'self':
+                # `with self.lock:` - sequentially the body simply runs (what the lock is for is C14's subject)
+                return self.block(s.body + rest, env, cname, end, brk)
+            if isinstance(s, ast.Assign) and len(s.targets) == 1 and isinstance(s.targets[0], ast.Subscript) and \
+                    is_policies(s.targets[0].value):
+                w, env2 = fresh_world()
+                return '(dictSetM %s %s %s fun %s =>\n      %s)' % (
+                    self.expr(s.targets[0].slice, env, cname), self.expr(s.value, env, cname), env['__w'], w,
+                    self.block(rest, env2, cname, end, brk))
+            if isinstance(s, ast.Delete) and len(s.targets) == 1 and isinstance(s.targets[0], ast.Subscript) and \
+                    is_policies(s.targets[0].value):
+                w, env2 = fresh_world()
+                return '(dictDelM %s %s fun %s =>\n      %s)' % (self.expr(s.targets[0].slice, env, cname), env['__w'], w,
+                                                               self.block(rest, env2, cname, end, brk))
+            if isinstance(s, ast.Raise) and isinstance(s.exc, ast.Call) and isinstance(s.exc.func, ast.Name):
+                return '(raiseWorldM "%s" %s)' % (s.exc.func.id, env['__w'])
+            if isinstance(s, ast.Expr) and isinstance(s.value, ast.Call) and isinstance(s.value.func, ast.Attribute) and \
+                    s.value.func.attr == '_check_limit_and_offset' and isinstance(s.value.func.value, ast.Name) and \
+                    s.value.func.value.id == 'self' and len(s.value.args) == 2 and not s.value.keywords:
+                # a call of the helper translated next to this method (check_limit_and_offset_Storage)
+                w, env2 = fresh_world()
+                return ('(callProcM (bindM %s fun a_limit => bindM %s fun a_offset => bindM %s fun a_w =>\n      '
+                        'check_limit_and_offset_Storage a_limit a_offset a_w) fun _r %s =>\n      %s)' % (
+                            self.expr(s.value.args[0], env, cname), self.expr(s.value.args[1], env, cname), env['__w'], w,
+                            self.block(rest, env2, cname, end, brk)))
         if getattr(self, 'effect_mode', None) == 'store' and isinstance(s, ast.Expr) and isinstance(s.value, ast.Call) and \
                 isinstance(s.value.func, ast.Attribute) and s.value.func.attr == 'notify' and not s.value.args and \
                 isinstance(s.value.func.value, ast.Name) and s.value.func.value.id == 'self':
@@ -695,6 +826,43 @@ def translate_checkers(repo):
 PARSER_FUNCTIONS = ['get_tag_indices']
 
 
+GUARD_AUDIT_METHODS = ['check_policies_allow', 'is_allowed_check', 'is_allowed']
+
+
+def translate_guard_audit(repo):
+    out = ['import Gen.Guard', '/-! GENERATED by harness/pytolean.py from vakt/guard.py - do not edit.  The decision methods once more, '
+           'this time with what they write to the audit log and to the decision log made explicit as effects on a world value -/',
+           'set_option linter.unusedVariables false', 'namespace Vakt.GenGuardAudit', 'open Vakt Vakt.PyPrim Vakt.GenGuard', '']
+    done, failed = [], []
+    tr = Translator(ast.parse(open(os.path.join(repo, 'vakt', 'guard.py')).read()))
+    tr.checker_method('Guard', 'check_context_restriction')       # (pure: the definition of Gen/Guard.lean is used)
+    tr.effect_mode = 'audit'
+    tr.audit_emitted = {}
+    for m in GUARD_AUDIT_METHODS:
+        try:
+            f = tr.method('Guard', m)
+            params = [a.arg for a in f.args.args][1:]
+            tr.attrs, tr.fresh = set(), 0
+            env = {p: '(pure p_%s)' % p for p in params}
+            env['__w'] = '(pure p_w)'
+            body = tr.block(f.body, env, 'Guard', end=lambda e: '(pairM cNone %s)' % e['__w'])
+            attrs = sorted(tr.attrs)
+            tr.audit_emitted[m] = attrs
+            out.append('/-- `vakt.guard.Guard.%s` with its log records (the last parameter is the log so far; the result is the '
+                       'returned value with the log) -/' % m)
+            out.append('def %s_GuardA (%s p_w : V) : M :=\n    %s\n' % (
+                m, ' '.join(['self_%s' % a for a in attrs] + ['p_%s' % p for p in params]), body))
+            done.append(m)
+        except Untranslatable as e:
+            failed.append((m, str(e)))
+    out.append('def translatedGuardAudit : List String := [%s]' % ', '.join('"%s"' % c for c in done))
+    out.append('def untranslatedGuardAudit : List (String × String) := [%s]' % ', '.join(
+        '("%s", "%s")' % (c, r.replace('"', "'")) for c, r in failed))
+    out.append('')
+    out.append('end Vakt.GenGuardAudit')
+    return '\n'.join(out) + '\n', [('guard-audit', c, []) for c in done], [('guard-audit', c, r) for c, r in failed]
+
+
 def translate_parser(repo):
     out = ['import Model.PyPrim', '/-! GENERATED by harness/pytolean.py from vakt/parser.py - do not edit -/',
            'set_option linter.unusedVariables false', 'namespace Vakt.GenParser', 'open Vakt Vakt.PyPrim', '']
@@ -788,6 +956,48 @@ def translate_migration(repo):
 
 
 ENFOLD_METHODS = ['add', 'update', 'delete', 'get', 'get_all', 'populate']
+
+
+MEMORY_METHODS = ['add', 'get', 'get_all', 'find_for_inquiry', 'update', 'delete']
+
+
+def translate_memory(repo):
+    out = ['import Model.PyPrim', '/-! GENERATED by harness/pytolean.py from vakt/storage/memory.py (class MemoryStorage) and '
+           'vakt/storage/abc.py (Storage._check_limit_and_offset) - do not edit -/',
+           'set_option linter.unusedVariables false', 'namespace Vakt.GenMemory', 'open Vakt Vakt.PyPrim', '']
+    done, failed = [], []
+
+    def one(tr, cls, m, lean_name, doc):
+        try:
+            f = tr.method(cls, m)
+            params = [a.arg for a in f.args.args]
+            if f.args.vararg or f.args.kwarg:
+                raise Untranslatable('star parameters')
+            tr.attrs, tr.fresh = set(), 0
+            env = {p: '(pure p_%s)' % p for p in params}
+            env['__w'] = '(pure p_w)'
+            body = tr.block(f.body, env, cls, end=lambda e: '(pairM cNone %s)' % e['__w'])
+            if tr.attrs:
+                raise Untranslatable('reads attributes %s' % sorted(tr.attrs))
+            out.append('/-- `%s` (the dictionary `self.policies` is the world the method acts on: the last parameter; the '
+                       'result is the returned value with the world, or the world recording the exception) -/' % doc)
+            out.append('def %s (%s p_w : V) : M :=\n    %s\n' % (lean_name, ' '.join('p_%s' % p for p in params), body))
+            done.append((m, []))
+        except Untranslatable as e:
+            failed.append((m, str(e)))
+    tr = Translator(ast.parse(open(os.path.join(repo, 'vakt', 'storage', 'abc.py')).read()))
+    tr.effect_mode = 'store'
+    one(tr, 'Storage', '_check_limit_and_offset', 'check_limit_and_offset_Storage', 'vakt.storage.abc.Storage._check_limit_and_offset')
+    tr = Translator(ast.parse(open(os.path.join(repo, 'vakt', 'storage', 'memory.py')).read()))
+    tr.effect_mode = 'store'
+    for m in MEMORY_METHODS:
+        one(tr, 'MemoryStorage', m, '%s_MemoryStorage' % m, 'vakt.storage.memory.MemoryStorage.%s' % m)
+    out.append('def translatedMemory : List String := [%s]' % ', '.join('"%s"' % c for c, _ in done))
+    out.append('def untranslatedMemory : List (String × String) := [%s]' % ', '.join(
+        '("%s", "%s")' % (c, r.replace('"', "'")) for c, r in failed))
+    out.append('')
+    out.append('end Vakt.GenMemory')
+    return '\n'.join(out) + '\n', [('memory', c, a) for c, a in done], [('memory', c, r) for c, r in failed]
 
 
 OBSERVABLE_METHODS = ['add', 'update', 'delete', 'get', 'get_all']
@@ -944,7 +1154,23 @@ def regenerate(repo, lean_dir):
                  % str(e).replace('-/', '- /')[:300])
         etr, eun = [], [('enfold', '*', str(e))]
     changed = _write(os.path.join(lean_dir, 'Gen', 'Enfold.lean'), etext) or changed
-    return changed, translated + ctr + gtr + ptr + otr + mtr + etr, untranslated + cun + gun + pun + oun + mun + eun
+    more_tr, more_un = [], []
+    for fn, ns, names, fname in ((translate_memory, 'GenMemory', ('translatedMemory', 'untranslatedMemory'), 'Memory.lean'),
+                                 (translate_guard_audit, 'GenGuardAudit', ('translatedGuardAudit', 'untranslatedGuardAudit'),
+                                  'GuardAudit.lean')):
+        try:
+            xtext, xtr, xun = fn(repo)
+        except Exception as e:
+            xtext = ('import Model.PyPrim\n/-! GENERATED by harness/pytolean.py: translation failed: %s -/\n'
+                     'namespace Vakt.%s\ndef %s : List String := []\n'
+                     'def %s : List (String × String) := []\nend Vakt.%s\n'
+                     % (str(e).replace('-/', '- /')[:300], ns, names[0], names[1], ns))
+            xtr, xun = [], [(ns, '*', str(e))]
+        changed = _write(os.path.join(lean_dir, 'Gen', fname), xtext) or changed
+        more_tr += xtr
+        more_un += xun
+    return changed, translated + ctr + gtr + ptr + otr + mtr + etr + more_tr, \
+        untranslated + cun + gun + pun + oun + mun + eun + more_un
 
 
 if __name__ == '__main__':
@@ -960,6 +1186,10 @@ if __name__ == '__main__':
         text, tr, un = translate_policy(repo)
     if '--migration' in sys.argv:
         text, tr, un = translate_migration(repo)
+    if '--guard-audit' in sys.argv:
+        text, tr, un = translate_guard_audit(repo)
+    if '--memory' in sys.argv:
+        text, tr, un = translate_memory(repo)
     if '--enfold' in sys.argv:
         text, tr, un = translate_enfold(repo)
     sys.stdout.write(text)
